@@ -123,7 +123,7 @@ def shards(tier, seed):
         kw["name"] = name
         out.append(kw)
 
-    n = 2600 if big else 210
+    n = 8000 if big else 450
     for i in range(6 if big else 4):
         add(f"exact{i}", mode="fraction", auto_reduce=False, trees=n, depth=4 if big and i % 2 else 3)
     for i in range(3 if big else 2):
@@ -131,6 +131,7 @@ def shards(tier, seed):
     add("matrix-exact", mode="fraction", auto_reduce=False, matrix=8 if big else 1, trees=0, depth=1)
     add("matrix-exact-reduce", mode="fraction", auto_reduce=True, matrix=8 if big else 1, trees=0, depth=1)
     add("matrix-float", mode="float", auto_reduce=False, matrix=8 if big else 1, trees=0, depth=1)
+    add("matrix-float-reduce", mode="float", auto_reduce=True, matrix=8 if big else 1, trees=0, depth=1)
     for i in range(2 if big else 1):
         add(f"generated{i}", mode="fraction", auto_reduce=bool(i % 2), generated=True,
             registries=60 if big else 5, trees=40, depth=3)
@@ -239,6 +240,7 @@ class Cx:
         self.u = 0.0 if self.exact else (1e-27 if mode == "decimal" else 2.0 ** -53)
         self.cu = C_ULP * self.u
         self.array = mode == "ndarray"
+        self.maxlog = 14          # decades allowed for the factor of a leaf unit in float runs
 
 
 def ok(mv):
@@ -420,6 +422,8 @@ def _model_pow(a, b, cx):
     if b.err > 0 and a.dims:
         return skip("inexact-exponent-on-dimensional-base")
     fa, fe = _af(a.v), float(ev)
+    if fa > 0 and abs(fe) * (abs(math.log10(fa)) + cx.maxlog + 6) > 240:
+        return skip("float-range")       # the magnitude in the operand's own units may overflow
     if integral and b.err == 0:
         n = int(ev)
         if abs(n) > 64:
@@ -532,6 +536,8 @@ class Pool:
         self.prefixes = sorted(m.prefixes) if prefixes else []
         self._pfx_ok = {}
         self._unit_cache = {}
+        self._log = {}
+        self.maxlog = 0          # set > 0 in inexact runs (decades allowed for a unit factor)
 
     def spelled(self, rng, c, p_prefix=0.35):
         """canonical name, possibly with a prefix that both the model and pint read the same way."""
@@ -606,11 +612,30 @@ class Pool:
             out = {k2: v for k2, v in out.items() if v}
             if self.m.dimvec(out) != dims:
                 raise AssertionError(("units_for produced wrong dims", out, dims))
+            if self.maxlog and not self.in_range(out):
+                continue
             return out
-        out = {}
-        if not self.from_base(rng, dims, out):
-            raise LookupError("no unit for " + repr(dims))
-        return {k2: v for k2, v in out.items() if v}
+        for _ in range(30):
+            out = {}
+            if not self.from_base(rng, dims, out):
+                raise LookupError("no unit for " + repr(dims))
+            out = {k2: v for k2, v in out.items() if v}
+            if not self.maxlog or self.in_range(out):
+                return out
+        raise LookupError("no unit in float range for " + repr(dims))
+
+    def in_range(self, units):
+        """Inexact runs: keep every factor far from float overflow / underflow."""
+        tot = 0.0
+        for s2, e in units.items():
+            lg = self._log.get(s2)
+            if lg is None:
+                lg = self._log[s2] = math.log10(abs(self.m.expand({s2: F(1)})[0].f()))
+            part = lg * float(e)
+            if abs(part) > self.maxlog:
+                return False
+            tot += part
+        return abs(tot) <= self.maxlog
 
     def unit_obj(self, units):
         from harness import gen
@@ -739,6 +764,10 @@ class TreeGen:
         return dict(k)
 
     def binop(self, op, l, r):
+        if l.kind == "num" and hasattr(l.num, "shape"):
+            # a bare ndarray on the left dispatches through numpy's ufunc protocol (C16)
+            l.num = float(l.num.flat[0])
+            l.zn = bool(is_nan(l.num) or l.num == 0)
         n = Node("bin", op, [l, r])
         rng = self.rng
         x = rng.random()
@@ -818,7 +847,8 @@ class TreeGen:
         if cx.mode == "decimal":
             n.num = rng.choice((-2, -1, 0, 1, 2, 3))
         else:
-            n.num = rng.choice((-2, -1, 0, 1, 2, 3, 0.5, 1.5, -0.5, 2.0, 0.25, F(1, 2), F(3, 2)))
+            n.num = rng.choice((-2, -1, 0, 1, 2, 3, 0.5, 1.5, -0.5, 2.0, 0.25) +
+                               (() if cx.array else (F(1, 2), F(3, 2))))
         n.zn = n.num == 0
         if not base_dimensional and r < 0.35 and cx.mode != "decimal":
             return self.leaf({}, small_int=rng.random() < 0.5, scalar=rng.random() < 0.6)
@@ -895,15 +925,14 @@ class TreeGen:
             b = self.partner(a, d - 1)
             if rng.random() < 0.3:
                 a, b = b, a
-            root = Node("bin", rng.choice(CMPS), [a, b])
+            root = self.binop(rng.choice(CMPS), a, b)
+            root.form = "plain"
         elif r < 0.4:
             a = self.sub(d - 1)
             b = self.partner(a, d - 1, allow_zero_bare=False)
             if rng.random() < 0.3:
                 a, b = b, a
-            root = Node("bin", "divmod", [a, b])
-            if rng.random() < 0.4:
-                root.form = "rdirect"
+            root = self.binop("divmod", a, b)
         else:
             root = self.sub(d)
         return root
@@ -978,6 +1007,8 @@ class Runner:
                 r = obj.to_root_units()
                 dims = {k: F(v) for k, v in obj.dimensionality.items()}
                 frac = any(F(v).denominator != 1 for v in obj._units._d.values())
+                if not self.cx.exact and (self._extreme(obj._magnitude) or self._extreme(r._magnitude)):
+                    return ("normskip", "extreme-float")
                 return ("ok", r._magnitude, dims, False, frac)
             except OverflowError:
                 return ("normskip", "Overflow")
@@ -990,6 +1021,23 @@ class Runner:
         if obj is NotImplemented:
             return ("err", "NotImplemented", "NotImplemented")
         return ("ok", obj, {}, True, False)
+
+    def _extreme(self, mag):
+        """inf / denormal-range magnitudes: float overflow or underflow happened on the way."""
+        if self.cx.mode == "decimal":
+            try:
+                return not mag.is_finite() and not mag.is_nan()
+            except AttributeError:
+                return False
+        try:
+            if hasattr(mag, "shape"):
+                import numpy as np
+                a = np.abs(np.asarray(mag, dtype=float))
+                return bool(np.any(np.isinf(a)) or np.any((a != 0) & (a < 1e-250)) or np.any(a > 1e250))
+            a = abs(float(mag))
+            return a == math.inf or (a != 0 and a < 1e-250) or a > 1e250
+        except (TypeError, ValueError, OverflowError):
+            return False
 
     def kind_of(self, obj):
         if isinstance(obj, Err):
@@ -1035,6 +1083,17 @@ class Runner:
             form = "numbers"
         elif form == "rdirect" and not (lq and rq):
             form = "plain"
+        if form == "inplace" and self.cx.array:
+            import numpy as np
+            sl = np.shape(l._magnitude)
+            sr = np.shape(r._magnitude if rq else r)
+            try:
+                if np.broadcast_shapes(sl, sr) != sl or not isinstance(l._magnitude, np.ndarray):
+                    if isinstance(l._magnitude, np.ndarray):
+                        form = "plain"          # numpy cannot broadcast the output operand
+                        rec.count("inplace_not_broadcastable_used_plain")
+            except ValueError:
+                pass
         fl, fr = self.fp(l), self.fp(r)
         rec.count("operand_snapshots", 2)
         tgt = None
@@ -1208,7 +1267,7 @@ class Decider:
                 status[n.id] = "skipz" if why == "pow-zero-dimensional-exponent" else "skip"
                 continue
             if nm[0] == "normskip":
-                rec.count("undecided:overflow-in-normal-form")
+                rec.count("undecided:overflow-or-underflow-in-floats")
                 status[n.id] = "skip"
                 continue
             if len(kinds) != 1:
@@ -1231,8 +1290,9 @@ class Decider:
                 continue
             status[n.id] = "bad"
             mech, detail = verdict
+            expected = mk if mk != "err" else "err:" + mo[0][1]
             rec.violation(mech, self.witness(tree, nodes, n, k, formed, detail, nm, mo),
-                          **desc, **self.r.fields)
+                          expected=expected, got=outcome, **desc, **self.r.fields)
 
     def _one(self, n, mo, mk, nm, full, nel, tree):
         rec, cx = self.rec, self.cx
@@ -1623,7 +1683,7 @@ def evaluate_tree(root, g, runner, decider, rec, cx, ti, label):
                     "model_root": _short_model(model[root.id][0])})
 
 
-MATRIX_KINDS = ("dim", "dim-same-units", "dim-prefixed", "other-dim", "dless-unit", "unitless",
+MATRIX_KINDS = ("dim", "dim-same-units", "dim-prefixed", "other-dim", "power-dim", "dless-unit", "unitless",
                 "ratio", "bare-int", "bare-frac", "bare-zero", "bare-nan", "bare-one")
 
 
@@ -1656,6 +1716,14 @@ def matrix_trees(g, rng, reps):
                     n.leaf.factors[i] = pool.m.expand({s: F(1)})[0]
                 n.leaf.intkind = False
             return n
+        if kind == "power-dim":
+            # a dimension that is an integer power of `dims` (length vs area / volume): the pairs
+            # auto_reduce_dimensions rewrites with fractional exponents
+            cands = [dict(k2) for k2 in pool.classes
+                     if k2 != () and any(dkey(dscale(dims, p)) == k2 for p in (2, 3, F(1, 2), F(1, 3)))]
+            if cands:
+                return g.leaf(rng.choice(cands))
+            return g.leaf(dscale(dims, 2))
         if kind == "other-dim":
             for _ in range(10):
                 d2 = g.random_dims()
@@ -1750,6 +1818,8 @@ def run_shard(spec, rec):
         if not pool.base or len(pool.names) < 3:
             rec.count("registry_skipped_too_small")
             return
+        if cx.mode in ("float", "ndarray"):
+            pool.maxlog = cx.maxlog
         runner = Runner(ureg, pint, pool, cx, rec, spec)
         if spec.get("matrix"):
             g = TreeGen(rng, pool, cx, 1, full_shape=None)
